@@ -1,39 +1,10 @@
 import KvarnModel.VaryConc
 /-! C05 when handlers overlap: **while the page stays cached, no variant is ever lost and no class is computed a second
-time — for every interleaving of looks and finishes, any number of overlapping requests.** The premise "every running
-handler started on the cached page" is exactly what the code needs: the witnesses below show a variant lost (and computed
-again) when a request that started on the *uncached* page finishes late, and when the entry is copied at look time (the
-code before the repair F46, and the seeded change C05-7). -/
+time — for every interleaving of looks and finishes, any number of overlapping requests, whether they started on the
+cached page or before it was cached.** The first version of this theorem needed the premise "every running handler
+started on the cached page"; running the real code at the excluded point (`c05.overlap 0 1 0`: `mm:2`) showed a variant
+lost and computed again — F47, repaired; the witnesses below keep both old behaviours. -/
 namespace VaryConc
-
-theorem takeInflight_spec (c : Class) : ∀ (l : List (Class × Bool)) (w : Bool) (rest : List (Class × Bool)),
-    takeInflight c l = some (w, rest) → (c, w) ∈ l ∧ ∀ p ∈ rest, p ∈ l := by
-  intro l
-  induction l with
-  | nil => intro w rest h; simp [takeInflight] at h
-  | cons hd tl ih =>
-    intro w rest h
-    obtain ⟨d, w0⟩ := hd
-    unfold takeInflight at h
-    split at h
-    · rename_i hd
-      cases h
-      subst hd
-      exact ⟨by simp, fun p hp => by simp [hp]⟩
-    · split at h
-      · cases h
-      · rename_i w' rest' heq
-        cases h
-        obtain ⟨h1, h2⟩ := ih w rest' heq
-        refine ⟨by simp [h1], ?_⟩
-        intro p hp
-        simp only [List.mem_cons] at hp ⊢
-        rcases hp with rfl | hp
-        · exact Or.inl rfl
-        · exact Or.inr (h2 p hp)
-
-/-- every running handler looked at the page while it was cached -/
-def Warm (st : St) : Prop := ∀ p ∈ st.inflight, p.2 = true
 
 theorem mem_push (c x : Class) (l : List Class) (h : x ∈ l) : x ∈ push c l := by
   unfold push; split <;> simp [h]
@@ -41,93 +12,82 @@ theorem mem_push (c x : Class) (l : List Class) (h : x ∈ l) : x ∈ push c l :
 theorem self_mem_push (c : Class) (l : List Class) : c ∈ push c l := by
   unfold push; split <;> simp_all
 
-/-- one step on a cached page, nothing cleared: the entry only grows, and the premise is kept -/
-theorem step_monotone (st : St) (l : List Class) (a : Act) (he : st.entry = some l) (hw : Warm st) (ha : a ≠ .clear) :
-    ∃ l', (step st a).entry = some l' ∧ (∀ x ∈ l, x ∈ l') ∧ Warm (step st a) := by
+/-- one step on a cached page, nothing cleared: the entry only grows -/
+theorem step_monotone (st : St) (l : List Class) (a : Act) (he : st.entry = some l) (ha : a ≠ .clear) :
+    ∃ l', (step st a).entry = some l' ∧ (∀ x ∈ l, x ∈ l') := by
   cases a with
   | clear => exact absurd rfl ha
   | look c =>
     simp only [step, he]
     split
-    · exact ⟨l, he, fun x hx => hx, hw⟩
-    · refine ⟨l, rfl, fun x hx => hx, ?_⟩
-      intro p hp
-      simp only [List.mem_append, List.mem_singleton] at hp
-      rcases hp with hp | rfl
-      · exact hw p hp
-      · rfl
+    · exact ⟨l, he, fun x hx => hx⟩
+    · exact ⟨l, rfl, fun x hx => hx⟩
   | finish c =>
     simp only [step]
     cases ht : takeInflight c st.inflight with
-    | none => exact ⟨l, he, fun x hx => hx, hw⟩
+    | none => exact ⟨l, he, fun x hx => hx⟩
     | some r =>
       obtain ⟨w, rest⟩ := r
-      obtain ⟨h1, h2⟩ := takeInflight_spec c _ w rest ht
-      have hwt : w = true := hw _ h1
-      subst hwt
-      simp only [he, if_true]
-      exact ⟨push c l, rfl, fun x hx => mem_push c x l hx, fun p hp => hw p (h2 p hp)⟩
+      simp only [he]
+      exact ⟨push c l, rfl, fun x hx => mem_push c x l hx⟩
 
 /-- … for whole runs: **a variant that is cached stays cached**, whatever looks and finishes interleave -/
-theorem run_monotone : ∀ (acts : List Act) (st : St) (l : List Class), st.entry = some l → Warm st →
-    (∀ a ∈ acts, a ≠ .clear) →
-    ∃ l', (run st acts).entry = some l' ∧ (∀ x ∈ l, x ∈ l') ∧ Warm (run st acts) := by
+theorem run_monotone : ∀ (acts : List Act) (st : St) (l : List Class), st.entry = some l →
+    (∀ a ∈ acts, a ≠ .clear) → ∃ l', (run st acts).entry = some l' ∧ (∀ x ∈ l, x ∈ l') := by
   intro acts
   induction acts with
-  | nil => intro st l he hw _; exact ⟨l, he, fun x hx => hx, hw⟩
+  | nil => intro st l he _; exact ⟨l, he, fun x hx => hx⟩
   | cons a acts ih =>
-    intro st l he hw hc
-    obtain ⟨l1, h1, h2, h3⟩ := step_monotone st l a he hw (hc a (by simp))
-    obtain ⟨l2, g1, g2, g3⟩ := ih (step st a) l1 h1 h3 (fun b hb => hc b (by simp [hb]))
-    exact ⟨l2, by simpa [run] using g1, fun x hx => g2 x (h2 x hx), by simpa [run] using g3⟩
+    intro st l he hc
+    obtain ⟨l1, h1, h2⟩ := step_monotone st l a he (hc a (by simp))
+    obtain ⟨l2, g1, g2⟩ := ih (step st a) l1 h1 (fun b hb => hc b (by simp [hb]))
+    exact ⟨l2, by simpa [run] using g1, fun x hx => g2 x (h2 x hx)⟩
 
-/-- a request that finishes on the cached page leaves its variant in the entry -/
-theorem finish_caches (st : St) (l : List Class) (c : Class) (he : st.entry = some l) (hw : Warm st)
-    (hr : ∃ w, (c, w) ∈ st.inflight) : ∃ l', (step st (.finish c)).entry = some l' ∧ c ∈ l' := by
+theorem takeInflight_some (c : Class) (w : Bool) : ∀ (li : List (Class × Bool)), (c, w) ∈ li → takeInflight c li ≠ none := by
+  intro li
+  induction li with
+  | nil => intro h; simp at h
+  | cons hd tl ih =>
+    intro h
+    obtain ⟨d, w0⟩ := hd
+    unfold takeInflight
+    split
+    · simp
+    · rename_i hne
+      simp only [List.mem_cons, Prod.mk.injEq] at h
+      rcases h with ⟨rfl, _⟩ | h
+      · exact absurd rfl hne
+      · have := ih h
+        split
+        · rename_i heq; exact absurd heq this
+        · simp
+
+/-- a request that finishes leaves its variant in the entry — on a cached page and on one that was not cached -/
+theorem finish_caches (st : St) (c : Class) (hr : ∃ w, (c, w) ∈ st.inflight) :
+    ∃ l', (step st (.finish c)).entry = some l' ∧ c ∈ l' := by
   simp only [step]
   cases ht : takeInflight c st.inflight with
   | none =>
-    exfalso
     obtain ⟨w, hm⟩ := hr
-    -- a running handler of the class is found
-    have : ∀ (li : List (Class × Bool)), (c, w) ∈ li → takeInflight c li ≠ none := by
-      intro li
-      induction li with
-      | nil => intro h; simp at h
-      | cons hd tl ih =>
-        intro h
-        obtain ⟨d, w0⟩ := hd
-        unfold takeInflight
-        split
-        · simp
-        · rename_i hne
-          simp only [List.mem_cons, Prod.mk.injEq] at h
-          rcases h with ⟨rfl, _⟩ | h
-          · exact absurd rfl hne
-          · have := ih h
-            split
-            · rename_i heq; exact absurd heq this
-            · simp
-    exact this _ hm ht
+    exact absurd ht (takeInflight_some c w _ hm)
   | some r =>
     obtain ⟨w, rest⟩ := r
-    obtain ⟨h1, _⟩ := takeInflight_spec c _ w rest ht
-    have hwt : w = true := hw _ h1
-    subst hwt
-    simp only [he, if_true]
-    exact ⟨push c l, rfl, self_mem_push c l⟩
+    simp only
+    cases he : st.entry with
+    | none => exact ⟨[c], rfl, by simp⟩
+    | some l => exact ⟨push c l, rfl, self_mem_push c l⟩
 
 /-- **one computation per class while the page stays cached, whatever overlaps**: once a class is in the entry, no
-interleaving of looks and finishes (of any classes, any number of requests) makes its handler run again -/
+interleaving of looks and finishes (of any classes, any number of requests, started before or after the page was
+cached) makes its handler run again -/
 theorem cached_class_not_recomputed : ∀ (acts : List Act) (st : St) (l : List Class) (c : Class),
-    st.entry = some l → c ∈ l → Warm st → (∀ a ∈ acts, a ≠ .clear) →
-    count (run st acts) c = count st c := by
+    st.entry = some l → c ∈ l → (∀ a ∈ acts, a ≠ .clear) → count (run st acts) c = count st c := by
   intro acts
   induction acts with
-  | nil => intro st l c _ _ _ _; rfl
+  | nil => intro st l c _ _ _; rfl
   | cons a acts ih =>
-    intro st l c he hc hw hn
-    obtain ⟨l1, h1, h2, h3⟩ := step_monotone st l a he hw (hn a (by simp))
+    intro st l c he hc hn
+    obtain ⟨l1, h1, h2⟩ := step_monotone st l a he (hn a (by simp))
     have hstep : count (step st a) c = count st c := by
       cases a with
       | clear => exact absurd rfl (hn _ (by simp))
@@ -145,22 +105,21 @@ theorem cached_class_not_recomputed : ∀ (acts : List Act) (st : St) (l : List 
         | some r =>
           obtain ⟨w, rest⟩ := r
           simp only
-          split
-          · split <;> rfl
-          · rfl
-    have := ih (step st a) l1 c h1 (h2 c hc) h3 (fun b hb => hn b (by simp [hb]))
+          split <;> rfl
+    have := ih (step st a) l1 c h1 (h2 c hc) (fun b hb => hn b (by simp [hb]))
     simpa [run, hstep] using this
 
-/-! ### where the premise is needed (the same histories are run on the real code by `c05.overlap`) -/
+/-- the statement is not vacuous: two first requests overlap on the uncached page, both variants are there afterwards
+and a third request for either class computes nothing -/
+example : (run {} [.look 4, .look 5, .finish 5, .finish 4, .look 5, .finish 5, .look 4]).computed = [4, 5] := by decide
 
-/-- a first request on the *uncached* page (class 4) that finishes after another one (class 5) stored its variant
-replaces the entry: class 5 is computed a second time. This is the pinned code's behaviour too (`c05.overlap 0 1 0`:
-`mm:2`) — outside C05's quantifier (arrival orders), recorded in DESIGN §8. -/
-example : count (run {} [.look 4, .look 5, .finish 5, .finish 4, .look 5, .finish 5]) 5 = 2 := by decide
+/-! ### the two behaviours that lose a variant (the same histories are run on the real code by `c05.overlap`) -/
 
-/-- on the cached page the same interleaving loses nothing -/
-example : count (run { entry := some [0] } [.look 4, .look 5, .finish 5, .finish 4, .look 5, .finish 5]) 5 = 1 := by
-  decide
+/-- F47, the pinned code: a first request on the *uncached* page (class 4) that finishes after another one (class 5)
+has stored its variant replaces the entry; class 5 is computed a second time (`c05.overlap 0 1 0` gave `mm:2`) -/
+example :
+    let s1 := run {} [.look 4, .look 5, .finish 5]
+    count (run (finishOld s1 4) [.look 5, .finish 5]) 5 = 2 := by decide
 
 /-- the entry copied at look time (F46's code, the seeded change C05-7): the later finisher writes back a copy without
 the earlier one's variant, even on the cached page -/
